@@ -13,15 +13,19 @@ USES_F64 = True
 FORMAT = ("script [kind; initial_ns; multiplier_bits (u64 pattern of the f64); has_cap; cap_ns; factor_bits; n; attempt x n; oracle x n] "
           "kind 0 FixedInterval, 1 ExponentialBackoff through RetryPolicy::next_backoff, 2 ExponentialRandomBackoff, "
           "3 ReconnectPolicy::exponential, 4 ReconnectPolicy::exponential_random, 5 ReconnectPolicy::fixed, 6 ReconnectPolicy::none, "
-          "7 FnInterval through RetryPolicy and ReconnectPolicy::Custom, 8 ReconnectLayer end-to-end (attempt slot = [retries; step_ms]), "
-          "9 RetryLayer end-to-end. trace: per attempt [panicked; ns] (kinds 0,1,3,5,6; -1 = no delay), [panicked; jittered ns; un-jittered base ns] "
+          "7 FnInterval through RetryPolicy and ReconnectPolicy::Custom, 8 ReconnectLayer end-to-end (attempt slot = [retries; step_ms; max; route]: "
+          "max 0 = unlimited_attempts, v = max_attempts(v-1); route 0 = ReconnectPolicy::exponential(initial, cap), 1 = the builder's default policy), "
+          "9 RetryLayer end-to-end (max 0 = max_attempts(retries+1), v = max_attempts(v); route 0 = .backoff(ExponentialBackoff), 1 = .exponential_backoff(initial), "
+          "2 = the builder's default backoff). trace: per attempt [panicked; ns] (kinds 0,1,3,5,6; -1 = no delay), [panicked; jittered ns; un-jittered base ns] "
           "(kinds 2,4), [panicked; ns; panicked; ns] (kind 7); kinds 8,9: [panicked; inner calls; instant in ms of every call after the first]. "
           "All durations are total nanoseconds (up to 2^64*10^9-1). The oracle slot (jittered kinds) is filled by model_input with the values the "
           "implementation returned: the model echoes an oracle value iff it lies between its results for the two extreme draws.")
 RULE = ("families = one configuration x a sorted list of attempts: {0..70, 100, 1000, 1023, 1024, 1025, 2^31-1, 2^31, 2^32, 2^63, usize::MAX} and random sorted lists; "
         "initial in {0, 1 ns, 1 ms, 100 ms, 1 s, 1 day, u64::MAX/4 s, random}; multipliers {1, 1+2^-52, 1.1, 1.5, 2, 3.3, 10, random in [1,10]}; "
         "caps none / below the initial / ms .. years / Duration::MAX; factors {0, 0.1, 0.5, 1, random, out-of-range (clamped)}; "
-        "thorough adds the dense sweep 0..10^4 in runs of 100 consecutive attempts; the four upstream reproducers are in the corpus; "
+        "dense sweep of every attempt 0..10^4 (runs of 101 consecutive attempts): two configurations in quick, eight in thorough; a few multipliers far outside [1,10] "
+        "(1e10, 1e300, 1+2^-40); end-to-end loops of 20-300 retries in quick (up to 70000 in thorough: beyond u8/u16 counters), with max_attempts at usize::MAX / u32::MAX / "
+        "small values and through the builders' default backoff; the four upstream reproducers are in the corpus; "
         "non-trivial = some attempt in the family reaches the cap / saturates / hits the zero branch, or the family is jittered")
 TRUSTED = ["Flocq 4.1.0 binary64 (b64_mult/plus/minus/div, binary_normalize, Bcompare) as the meaning of f64 arithmetic",
            "glue transcribed in Model/Backoff.v from the Rust sources: Duration::as_secs_f64, integer->f64 casts, compiler-builtins __powidf2 "
@@ -29,10 +33,15 @@ TRUSTED = ["Flocq 4.1.0 binary64 (b64_mult/plus/minus/div, binary_normalize, Bco
            "all tied to the real thing only by this bit-exact correspondence run",
            "rand 0.9 random_range(lo..=hi) returns a value in [lo, hi] or panics when !(lo <= hi) or hi-lo is not finite (read from "
            "rand-0.9.5/src/distr/uniform_float.rs); the draw itself is an oracle",
-           "end-to-end kinds: tokio::time::sleep fires at the first clock step at or after its deadline"]
+           "end-to-end kinds: tokio::time::sleep fires at the first clock step at or after its deadline and accepts every Duration (far-future deadline on overflow)",
+           "build profile: the harness is built once, `cargo build --release` with opt-level = 1 and overflow-checks = true (harness/Cargo.toml): arithmetic overflow in the "
+           "loops' counters would panic as in a debug build; no other profile / target is part of the evidence (f64::powi lowering is profile-dependent in principle)",
+           "loop counters beyond what can be executed (2^32 reconnect failures, usize::MAX retries) are covered by the theorems C14_retry_loop_total / "
+           "C14_reconnect_loop_total over Model.Backoff.retry_step / reconnect_step, which kinds 8/9 tie to the real loops for the first <= 70000 steps; "
+           "harness/src/bin/c16_soak.rs drives the real reconnect layer through 2^32 + 16 failures (not part of the registered check)"]
 ASSUMPTIONS = ["well-formed configuration for the theorems and the monitor: multiplier finite and >= 1, factor in [0,1] (after ::new's clamp any non-NaN factor); "
                "ill-formed configurations are still compared bit-for-bit against the model",
-               "attempt < 2^64 (usize)",
+               "no bound on the attempt number in the theorems (N); scripts carry usize values",
                "jittered kinds: checked by interval membership (a necessary condition for the existence of a draw)"]
 
 NANOS = 10 ** 9
@@ -89,6 +98,21 @@ def corpus():
         mk(9, 100 * MS, 2.0, 5 * NANOS, 0.0, [80, 1000]),
         # hours of virtual time: cap 1 h, one-minute clock steps
         mk(8, 100 * MS, 2.0, 3600 * NANOS, 0.0, [40, 60000]),
+        # loop counters: more retries than a u8 holds (a narrowed counter restarts the schedule at 256)
+        mk(8, MS, 2.0, 50 * MS, 0.0, [300, 10]),
+        mk(9, MS, 2.0, 50 * MS, 0.0, [300, 10]),
+        # max_attempts at the ends of its type: usize::MAX (retry), u32::MAX (reconnect: never exceeded
+        # by the saturating counter), and small values (the loop stops early)
+        mk(9, MS, 2.0, 20 * MS, 0.0, [40, 10, USIZE_MAX, 0]),
+        mk(8, MS, 2.0, 20 * MS, 0.0, [40, 10, 2 ** 32, 0]),
+        mk(9, MS, 2.0, 20 * MS, 0.0, [40, 10, 5, 0]),
+        mk(8, MS, 2.0, 20 * MS, 0.0, [40, 10, 6, 0]),
+        mk(8, MS, 2.0, 20 * MS, 0.0, [40, 10, 1, 0]),
+        # the builders' own backoff: ReconnectConfig::builder() default policy (100 ms .. 5 s),
+        # RetryConfigBuilder::exponential_backoff(initial) and the builder default (100 ms x2, no cap)
+        mk(8, 0, 2.0, 0, 0.0, [12, 1000, 0, 1]),
+        mk(9, 3 * MS, 2.0, None, 0.0, [14, 50, 0, 1]),
+        mk(9, 0, 2.0, None, 0.0, [10, 100, 0, 2]),
     ]
 
 
@@ -180,25 +204,40 @@ def generate(rng, tier):
         att = rand_attempts(rng, 6)
         ini = rand_initial(rng)
         out.append(mk(rng.choice([0, 5, 6, 7]), min(ini, DUR_MAX - 1000), 2.0, None, 0.0, att))
-    # dense sweep of attempts
+    # multipliers that are well-formed (finite, >= 1) but far outside [1, 10]: overflow to +inf after a
+    # few attempts (1e300: at attempt 2), or barely above 1
+    for m in (1e10, 1e300, 1.0 + 2.0 ** -40):
+        for ini, cap in ((MS, None), (100 * MS, 5 * NANOS), (1, DUR_MAX)):
+            out.append(mk(1, ini, m, cap, 0.0, SHORT_ATTEMPTS))
+            out.append(mk(2, ini, m, cap, 0.5, SHORT_ATTEMPTS))
+    # dense sweep: EVERY attempt 0..10^4, in runs of 101 consecutive attempts
+    dense = [(1, 100 * MS, 2.0, 5 * NANOS), (1, NANOS, 1.0 + 2.0 ** -12, None)]
     if quick:
-        for ini, m, cap in ((100 * MS, 2.0, 5 * NANOS), (MS, 1.5, None), (NANOS, 1.0 + 2.0 ** -52, None)):
+        for ini, m, cap in ((MS, 1.5, None), (NANOS, 1.0 + 2.0 ** -52, None)):
             for lo in range(0, 400, 100):
                 out.append(mk(1, ini, m, cap, 0.0, list(range(lo, lo + 100))))
     else:
-        for ini, m, cap in ((100 * MS, 2.0, 5 * NANOS), (100 * MS, 2.0, None), (MS, 1.5, None), (1, 10.0, 30 * YEAR),
-                            (NANOS, 1.0 + 2.0 ** -52, None), (86400 * NANOS, 1.1, None), (123456789, 3.3, 3600 * NANOS)):
-            for lo in range(0, 10000, 100):
-                out.append(mk(1, ini, m, cap, 0.0, list(range(lo, lo + 101))))
+        dense += [(1, 100 * MS, 2.0, None), (1, MS, 1.5, None), (1, 1, 10.0, 30 * YEAR), (1, NANOS, 1.0 + 2.0 ** -52, None),
+                  (1, 86400 * NANOS, 1.1, None), (1, 123456789, 3.3, 3600 * NANOS), (3, 100 * MS, 2.0, 5 * NANOS)]
+    for kind, ini, m, cap in dense:
         for lo in range(0, 10000, 100):
-            out.append(mk(3, 100 * MS, 2.0, 5 * NANOS, 0.0, list(range(lo, lo + 101))))
-    # end to end
-    e2e = [(8, 100 * MS, 2.0, 5 * NANOS, 30, 250), (9, 100 * MS, 2.0, 5 * NANOS, 30, 250), (9, MS, 10.0, 2 * NANOS, 30, 100),
-           (9, 7 * MS, 1.5, None, 20, 50), (8, 3 * MS, 2.0, 700 * MS, 75, 7)]
+            out.append(mk(kind, ini, m, cap, 0.0, list(range(lo, lo + 101))))
+    # end to end: (kind, initial, multiplier, cap, retries, step_ms, max, route)
+    e2e = [(8, 100 * MS, 2.0, 5 * NANOS, 30, 250, 0, 0), (9, 100 * MS, 2.0, 5 * NANOS, 30, 250, 0, 0), (9, MS, 10.0, 2 * NANOS, 30, 100, 0, 0),
+           (9, 7 * MS, 1.5, None, 20, 50, 0, 0), (8, 3 * MS, 2.0, 700 * MS, 75, 7, 0, 0),
+           (8, MS, 2.0, 64 * MS, 300, 8, 0, 0), (9, 2 * MS, 1.5, 60 * MS, 300, 10, USIZE_MAX, 0),
+           (8, 2 * MS, 2.0, 50 * MS, 60, 10, 2 ** 32, 0), (8, 2 * MS, 2.0, 50 * MS, 60, 10, rng.randrange(1, 40), 0),
+           (9, 2 * MS, 2.0, 50 * MS, 60, 10, rng.randrange(1, 40), 0),
+           (8, 0, 2.0, 0, rng.randrange(5, 15), 500, 0, 1), (9, rng.randrange(1, 20) * MS, 2.0, None, 12, 20, 0, 1),
+           (9, 0, 2.0, None, rng.randrange(5, 11), 100, 0, 2)]
     if not quick:
-        e2e += [(8, 100 * MS, 2.0, 5 * NANOS, 200, 1000), (9, 100 * MS, 2.0, 60 * NANOS, 100, 1000), (8, MS, 2.0, 86400 * NANOS, 45, 600000)]
-    for kind, ini, m, cap, k, step in e2e:
-        out.append(mk(kind, ini, m, cap, 0.0, [k, step]))
+        e2e += [(8, 100 * MS, 2.0, 5 * NANOS, 200, 1000, 0, 0), (9, 100 * MS, 2.0, 60 * NANOS, 100, 1000, 0, 0),
+                (8, MS, 2.0, 86400 * NANOS, 45, 600000, 0, 0),
+                # more retries than a u16 holds, one clock step per retry once the cap is reached
+                # (cap = 3 clock steps, so that a restarted schedule shows as a drop of more than one step)
+                (8, MS, 2.0, 24 * MS, 70000, 8, 0, 0), (9, MS, 2.0, 24 * MS, 70000, 8, USIZE_MAX, 0)]
+    for kind, ini, m, cap, k, step, mx, route in e2e:
+        out.append(mk(kind, ini, m, cap, 0.0, [k, step] if (mx, route) == (0, 0) else [k, step, mx, route]))
     return out
 
 
@@ -258,14 +297,23 @@ def monitor(s, t):
         return "the driver panicked / died outside an attempt"
     if kind in (8, 9):
         k = p["att"][0] if p["att"] else 0
+        mx = p["att"][2] if len(p["att"]) > 2 else 0
+        route = p["att"][3] if len(p["att"]) > 3 else 0
         if len(t) < 2 or t[0] != 0:
             return "retry/reconnect loop panicked or produced no trace: %s" % t[:4]
-        if t[1] != k + 1 or len(t) != 2 + k:
-            return "loop against a dead backend made %d calls, expected %d" % (t[1], k + 1)
+        # the loop keeps going until the configured number of attempts is used up (or for ever)
+        limit = (k + 1 if mx == 0 else mx) if kind == 9 else (None if mx == 0 or mx - 1 >= 2 ** 32 - 1 else mx)
+        calls = k + 1 if limit is None else min(k + 1, max(1, limit))
+        if t[1] != calls or len(t) != 1 + calls:
+            return "loop against a dead backend made %d calls, expected %d" % (t[1], calls)
         inst = [0] + t[2:]
         if any(b < a for a, b in zip(inst, inst[1:])):
             return "call instants not monotone"
-        if p["cap"] is not None:
+        cap = p["cap"]
+        if route != 0:
+            cap = 5 * NANOS if kind == 8 else None
+        if cap is not None:
+            p = dict(p, cap=cap)
             step = p["att"][1]
             gaps = [b - a for a, b in zip(inst, inst[1:])]
             if any(g * MS > p["cap"] + step * MS for g in gaps):
@@ -309,7 +357,7 @@ def monitor(s, t):
                 return "attempt %d: product is far above the cap but the delay is %d, not the cap %d" % (a, base, cap)
         else:
             N, D, extra = ev
-            rel = min(a, 2 ** 31 - 1) + 2 + extra          # in units of 2^-52
+            rel = min(a, 2 ** 31 - 1) + 3 + extra          # in units of 2^-52 (C14_real_value / C14_real_capped)
             T = 2 ** 52
             lo_ok = (base + 1) * D * T >= N * (T - rel)     # base >= v(1-rel) - 1
             hi_ok = (base - 1) * D * T <= N * (T + rel)     # base <= v(1+rel) + 1
@@ -325,7 +373,7 @@ def monitor(s, t):
         if kind in JIT:
             j = r[1]
             F = Fraction(f)
-            tol = Fraction(base, 2 ** 50) + 1
+            tol = Fraction(base, 2 ** 49) + 1               # C14_jitter_real
             if not (base * (1 - F) - tol <= j <= min(base * (1 + F) + tol, DUR_MAX)):
                 return "attempt %d: jittered delay %d ns outside [%s, %s] (base %d, factor %s)" % (
                     a, j, float(base * (1 - F)), float(base * (1 + F)), base, f)
